@@ -72,7 +72,7 @@ func init() {
 
 func c20Cases(seed uint64, tier string) []core.Case {
 	rng := core.Rng(seed, 0xC20)
-	shards, n, feeCases, pcN := 16, 100, 6, 60
+	shards, n, feeCases, pcN := 16, 100, 6, 200
 	if tier == "thorough" {
 		shards, n, feeCases, pcN = 32, 400, 24, 400
 	}
@@ -80,8 +80,9 @@ func c20Cases(seed uint64, tier string) []core.Case {
 	for i := 0; i < shards; i++ {
 		out = append(out, core.MkCase(fmt.Sprintf("C20-msgs-%02d", i), c20Spec{Seed: rng.Uint64(), Mode: "msgs", Shard: i, Of: shards, N: n}))
 	}
-	for i := 0; i < 4; i++ {
-		out = append(out, core.MkCase(fmt.Sprintf("C20-precompile-%d", i), c20Spec{Seed: rng.Uint64(), Mode: "precompile", Shard: i, Of: 4, N: pcN}))
+	pcShards := 8
+	for i := 0; i < pcShards; i++ {
+		out = append(out, core.MkCase(fmt.Sprintf("C20-precompile-%d", i), c20Spec{Seed: rng.Uint64(), Mode: "precompile", Shard: i, Of: pcShards, N: pcN}))
 	}
 	out = append(out, core.MkCase("C20-parsers", c20Spec{Seed: rng.Uint64(), Mode: "parsers", N: n * 200}))
 	for i := 0; i < feeCases; i++ {
@@ -550,12 +551,16 @@ func c20Msgs(spec c20Spec, res *core.CaseResult, verbose bool) {
 
 // ---- precompile call data ----------------------------------------------------------------------
 
-func abiValue(rng *rand.Rand, t abi.Type, e *fix.EvmWorld, depth int) interface{} {
+func abiValue(rng *rand.Rand, t abi.Type, e *fix.EvmWorld, depth int, name ...string) interface{} {
+	arg := ""
+	if len(name) > 0 {
+		arg = strings.ToLower(name[0])
+	}
 	switch t.T {
 	case abi.AddressTy:
 		return []common.Address{{}, e.Victim.Hex(), e.Caller.Hex(), e.USDT.ERC20, common.HexToAddress("0xffffffffffffffffffffffffffffffffffffffff")}[rng.IntN(5)]
 	case abi.UintTy, abi.IntTy:
-		v := []*big.Int{big.NewInt(0), big.NewInt(1), big.NewInt(int64(rng.IntN(100000))), new(big.Int).Sub(new(big.Int).Lsh(big.NewInt(1), uint(t.Size)), big.NewInt(1))}[rng.IntN(4)]
+		v := []*big.Int{big.NewInt(0), big.NewInt(0), big.NewInt(1), big.NewInt(int64(rng.IntN(100000))), new(big.Int).Sub(new(big.Int).Lsh(big.NewInt(1), uint(t.Size)), big.NewInt(1))}[rng.IntN(5)]
 		if t.T == abi.IntTy && v.BitLen() >= t.Size {
 			v = big.NewInt(-1)
 		}
@@ -590,6 +595,12 @@ func abiValue(rng *rand.Rand, t abi.Type, e *fix.EvmWorld, depth int) interface{
 	case abi.BoolTy:
 		return rng.IntN(2) == 0
 	case abi.StringTy:
+		if strings.Contains(arg, "chain") && rng.IntN(4) != 0 {
+			return []string{"eth", "bsc", "tron"}[rng.IntN(3)]
+		}
+		if strings.Contains(arg, "val") && rng.IntN(4) != 0 {
+			return e.Vals[rng.IntN(len(e.Vals))].String()
+		}
 		return []string{"", e.Vals[0].String(), "eth", "tron", "ibc/0/fx", e.Victim.Bech32(), e.Victim.Hex().Hex(), strings.Repeat("x", 500), "\x00"}[rng.IntN(9)]
 	case abi.BytesTy:
 		return make([]byte, []int{0, 1, 32, 100}[rng.IntN(4)])
@@ -660,7 +671,7 @@ func c20Precompile(spec c20Spec, res *core.CaseResult, verbose bool) {
 		for k := 0; k < spec.N; k++ {
 			var args []interface{}
 			for _, in := range mm.m.Inputs {
-				args = append(args, abiValue(rng, in.Type, e, 0))
+				args = append(args, abiValue(rng, in.Type, e, 0, in.Name))
 			}
 			var packed []byte
 			if p, _ := guard(func() { packed, err = mm.m.Inputs.Pack(args...) }); p || err != nil {
